@@ -30,21 +30,21 @@ func (u *Upload) Transition(active bool) error { u.reset(); return nil }
 
 // Receive implements serviceinfo.DeviceModule.
 func (u *Upload) Receive(ctx context.Context, messageName string, messageBody io.Reader, respond func(string) io.Writer, yield func()) error {
-	if err := u.receive(messageName, messageBody, respond, yield); err != nil {
+	if err := u.receive(ctx, messageName, messageBody, respond, yield); err != nil {
 		u.reset()
 		return err
 	}
 	return nil
 }
 
-func (u *Upload) receive(messageName string, messageBody io.Reader, respond func(string) io.Writer, yield func()) error {
+func (u *Upload) receive(ctx context.Context, messageName string, messageBody io.Reader, respond func(string) io.Writer, yield func()) error {
 	switch messageName {
 	case "name":
 		var name string
 		if err := cbor.NewDecoder(messageBody).Decode(&name); err != nil {
 			return err
 		}
-		if err := u.upload(name, respond, yield); err != nil {
+		if err := u.upload(ctx, name, respond, yield); err != nil {
 			return fmt.Errorf("error uploading %q: %w", name, err)
 		}
 		return nil
@@ -58,7 +58,7 @@ func (u *Upload) receive(messageName string, messageBody io.Reader, respond func
 	}
 }
 
-func (u *Upload) upload(name string, respond func(string) io.Writer, yield func()) error {
+func (u *Upload) upload(ctx context.Context, name string, respond func(string) io.Writer, yield func()) error {
 	defer u.reset()
 
 	f, err := u.FS.Open(name)
@@ -76,10 +76,18 @@ func (u *Upload) upload(name string, respond func(string) io.Writer, yield func(
 	}
 	yield()
 
-	chunk := make([]byte, 1014)
+	// Each data message is sent in a service info message of its own and is
+	// decoded by the owner module when it arrives, so it must not be split
+	// over two messages: limit the chunk to what fits the negotiated MTU
+	// (32 covers the key, the CBOR heads of the service info and the chunk).
+	chunkSize := 1014
+	if mtu, ok := ctx.Value(serviceinfo.MTUKey{}).(uint16); ok && int(mtu)-32 < chunkSize {
+		chunkSize = max(1, int(mtu)-32)
+	}
+	chunk := make([]byte, chunkSize)
 	hash := sha512.New384()
 	for i := stat.Size(); i > 0; {
-		n, err := f.Read(chunk[:min(1014, i)])
+		n, err := f.Read(chunk[:min(int64(chunkSize), i)])
 		if err != nil {
 			return err
 		}
